@@ -70,8 +70,9 @@ Proof.
   - pose proof (oth_listen s) as H1. destruct (listen E0 s) as [s1 id]. cbn [fst] in H1.
     pose proof (oth_cas 0 1 s1) as H2. destruct (cas W0 0 1 s1) as [s2 prev]. cbn [fst] in H2.
     destruct (prev =? 0).
-    + pose proof (oth_take_mutex (set_lis (Some id) a) s2) as H3. destruct (take_mutex W0 (set_lis (Some id) a) s2) as [a' s3]. cbn [snd lres_sh] in *.
-      eapply oth_trans; [exact H1|]. eapply oth_trans; [exact H2 | exact H3].
+    + pose proof (oth_take_mutex (set_lis None (set_lis (Some id) a)) (drop_listener E0 id s2)) as H3.
+      destruct (take_mutex W0 (set_lis None (set_lis (Some id) a)) (drop_listener E0 id s2)) as [a' s3]. cbn [snd lres_sh] in *.
+      eapply oth_trans; [exact H1|]. eapply oth_trans; [exact H2|]. eapply oth_trans; [apply oth_drop_listener | exact H3].
     + destruct (prev =? 1); cbn [lres_sh].
       * eapply oth_trans; [exact H1|]. eapply oth_trans; [exact H2 | apply IH].
       * eapply oth_trans; [exact H1 | exact H2].
@@ -91,8 +92,9 @@ Proof.
   - pose proof (oth_listen s) as H1. destruct (listen E0 s) as [s1 id]. cbn [fst] in H1.
     pose proof (oth_cas 2 3 s1) as H2. destruct (cas W0 2 3 s1) as [s2 prev]. cbn [fst] in H2.
     destruct (prev =? 2).
-    + pose proof (oth_take_mutex (set_lis (Some id) a) s2) as H3. destruct (take_mutex W0 (set_lis (Some id) a) s2) as [a' s3]. cbn [snd lres_sh] in *.
-      eapply oth_trans; [exact H1|]. eapply oth_trans; [exact H2 | exact H3].
+    + pose proof (oth_take_mutex (set_lis None (set_lis (Some id) a)) (drop_listener E0 id s2)) as H3.
+      destruct (take_mutex W0 (set_lis None (set_lis (Some id) a)) (drop_listener E0 id s2)) as [a' s3]. cbn [snd lres_sh] in *.
+      eapply oth_trans; [exact H1|]. eapply oth_trans; [exact H2|]. eapply oth_trans; [apply oth_drop_listener | exact H3].
     + destruct (prev mod 2 =? 1).
       * eapply oth_trans; [exact H1|]. eapply oth_trans; [exact H2 | apply IH].
       * eapply oth_trans; [exact H1|]. eapply oth_trans; [exact H2|]. eapply oth_trans; [apply oth_notify | apply IH].
